@@ -257,11 +257,13 @@ theorem cinv_run (ops : List COp) : ∀ st : CState, CInv st → cAdmRun st ops 
     intro st h ha
     exact ih _ (cinv_step st op h ha.1) ha.2
 
-theorem cinv_init (n : Nat) (idx : Int) : CInv (cinit n idx) := by
+theorem cinv_initWith (n nCid : Nat) (data : Nat → DS) (idx : Int) : CInv (cinitWith n nCid data idx) := by
   refine ⟨Or.inl ?_, ?_⟩
-  · show ([] : List Choice) = refresh defaultFlags ([].map initDS)
+  · show ([] : List Choice) = refresh defaultFlags ([].map data)
     rfl
   · rfl
+
+theorem cinv_init (n : Nat) (idx : Int) : CInv (cinit n idx) := cinv_initWith n (5 * n) initDS idx
 
 /-! ## 4. dataset pickers -/
 
